@@ -253,6 +253,10 @@ SPECIAL = [
     '[O-2].[Mg+2]', '[C-]#[O+]', '[CH3]', '[CH2]C', 'C[CH]C', '[O]O', '[OH]', 'C[N]C', '[C]', '[P]', '[S]', '[B]', '[PH3]', 'P',
     '[PH]=C', 'CP(C)C', 'CP(=O)(O)O', 'OP(O)O', '[PH2]C', 'C[PH]C', '[SiH4]', '[Na]', '[Cl]', 'Cl', 'Br', 'BrCCCl', 'B(O)O',
     '[BH4-]', 'CB(C)C', '[235U]', '[U+4]', '[18F]CC', '[15NH3]', '[14C]#[14C]', 'C[Se]C', '[SeH]C', '[AsH3]', 'C[As](C)C',
+    # two and more radical atoms far apart: the CXSMILES radical block lists written positions >= 10 (several digits, several entries)
+    '[CH2]CCCCCCCCCCC[CH2]', '[O]CCCCCCCCCCCC[O]', 'C[CH]CCCCCCCCCC[CH]C', '[CH2]c1ccc(cc1)CCCCCCC[CH2]', 'CCCCCCCCCC[CH]CC[CH]C',
+    '[CH2]CCCCC[CH]CCCCCC[CH2]', 'C[N]CCCCCCCCCCCC[O]', '[CH2]CCCCCCCCCCCCCCCCCCCCCC[CH2]', 'CC(C)(C)c1cc([O])c(cc1[O])C(C)(C)CCCCCC[CH2]',
+    '[CH2]CCCCCCCCCC.[CH2]CCCCCCCCCCCC[O]',
     # special (coordinate) bonds
     '[C]~[Fe]', 'C~[Fe]', 'N~[Pt](~N)(Cl)Cl', '[Fe]~1~C~C~1',
     # aromatic: pyrrole-type N, B, P, heteroatoms, charged, fused
